@@ -1419,6 +1419,19 @@ fire("c14-subs-sample-forgets-the-key", "C14", TERMS,
 silent("c14-s-sample-digit-via-divmod-spelling", "C14", TENSOR,
        "            point = Tensor(mod_sample % size, sb_inputs, size)\n            mod_sample = mod_sample // size\n", "            digit = mod_sample % size\n            point = Tensor(digit, sb_inputs, size)\n            mod_sample = mod_sample // size\n")
 
+fire("c10-lagged-slice-stops-one-early", "C10", SUMPROD,
+     "        slice_t = Slice(time, t, duration - period + t + 1, period, duration)\n", "        slice_t = Slice(time, t, duration - period + t, period, duration)\n", "R10.4", "sarkka_bilmes_product")
+fire("c10-lagged-remainder-shift-off-by-one", "C10", SUMPROD,
+     "                _shift_funsor(trans(**{time: t}), remaining_duration - t, global_vars),\n", "                _shift_funsor(trans(**{time: t}), remaining_duration - t - 1, global_vars),\n", "R10.4", "sarkka_bilmes_product")
+fire("c10-lagged-recursion-on-the-first-steps", "C10", SUMPROD,
+     "                trans(**{time: Slice(time, remaining_duration, duration, 1, duration)}),\n", "                trans(**{time: Slice(time, 0, truncated_duration, 1, duration)}),\n", "R10.4", "sarkka_bilmes_product")
+fire("c10-lagged-shift-back-by-period", "C10", SUMPROD,
+     "            **{name: _shift_name(name, -remaining_duration) for name in result.inputs}\n", "            **{name: _shift_name(name, -remaining_duration + 1) for name in result.inputs}\n", "R10.4", "sarkka_bilmes_product")
+fire("c10-lagged-factor-shift-by-t", "C10", SUMPROD,
+     "        factor = _shift_funsor(trans, period - t - 1, global_vars)\n", "        factor = _shift_funsor(trans, period - t, global_vars)\n", "R10.4", "sarkka_bilmes_product")
+silent("c10-s-lagged-truncated-from-floor", "C10", SUMPROD,
+       "        truncated_duration = duration - remaining_duration\n", "        truncated_duration = duration // period * period\n")
+
 # ===== derived variants: must stay at the END of this file (they enumerate every rename() variant above) =====
 # `if c: A else: B` -> `if not c: B else: A` in the anchor functions (behaviour-preserving)
 def invert(prop, file, qual):
